@@ -336,6 +336,9 @@ public:
 		swap(naux,other.naux);
 		swap(aux,other.aux);
 		swap(allocator,other.allocator);
+		//other now holds what this table held before: release it, so that the
+		//moved-from table is empty
+		splinetable released(std::move(other));
 		return(*this);
 	}
 	
